@@ -1,7 +1,7 @@
 (** C19: @skip/@include behave as textual deletion.  Statements only; proofs are in Gql/Proofs*.v. *)
 From Coq Require Import List String Bool.
 From Thunder Require Import Lib.Json Gql.Types Gql.Value Gql.Query Gql.Ref Gql.Exec Gql.ProofsDirective
-  Gql.ProofsRef Gql.ProofsMain Gql.ProofsPrune Gql.ProofsParsePrune Gql.Witness Gql.ProofsWitness.
+  Gql.ProofsRef Gql.ProofsMain Gql.ProofsEnt Gql.ProofsTop Gql.ProofsPrune Gql.ProofsParsePrune Gql.Witness Gql.ProofsWitness.
 Import ListNotations.
 Open Scope string_scope.
 
@@ -12,13 +12,13 @@ Open Scope string_scope.
     same data for both - the reference result.  Object and union parents, fields, inline fragments and
     fragment spreads alike.  [ids_wf]: the identities of the parser's *SelectionSet objects are distinct
     (a fact about pointers, checked on every generated case).  The last three hypotheses are those of
-    C01's theorem: the reference evaluation raises nothing, addresses each node once, and fits the
-    rendering fuel. *)
+    C01's theorem: the reference evaluation raises nothing, no object of its result carries a key twice,
+    and the result fits the rendering fuel. *)
 Theorem prune_preserves_execution : forall S vs q fuel rf root s sched sched',
   directives_wellformed vs q = true -> ids_wf q = true ->
   parse vs q = Some s ->
   snd (eval_ref S fuel s root) = [] ->
-  NoDup (map fst (ent [] (fst (eval_ref S fuel s root)))) ->
+  json_keys_unique (fst (eval_ref S fuel s root)) = true ->
   jdepth (fst (eval_ref S fuel s root)) <= Datatypes.S rf ->
   exists s' st0 st0',
     parse vs (prune vs q) = Some s' /\
@@ -27,7 +27,7 @@ Theorem prune_preserves_execution : forall S vs q fuel rf root s sched sched',
      complete (run_sched fixed S fuel sched' st0') = true ->
      finish rf (run_sched fixed S fuel sched st0) = finish rf (run_sched fixed S fuel sched' st0') /\
      finish rf (run_sched fixed S fuel sched st0) = Some (ROk (fst (eval_ref S fuel s root)))).
-Proof. exact ProofsParsePrune.prune_preserves_execution. Qed.
+Proof. exact ProofsTop.prune_preserves_execution_k. Qed.
 Print Assumptions prune_preserves_execution.
 
 (** The same for the reference semantics alone, without side conditions on the result (failing
